@@ -2003,7 +2003,10 @@ func (d *DFA) SearchReverseLimited(cache *DFACache, haystack []byte, start, end,
 		lastMatch = lowerBound
 	}
 
-	if lowerBound > start && lastMatch < 0 {
+	// The scan stopped at the guard with the automaton still alive: bytes below
+	// the guard could extend the match further left, so a start found so far is
+	// not known to be the leftmost one. Let the caller use another engine.
+	if lowerBound > start {
 		return SearchReverseLimitedQuadratic
 	}
 
